@@ -4,6 +4,7 @@ import copy
 import io
 import json
 import os
+import sys
 import shutil
 
 from oslo_policy import policy, shell
@@ -103,7 +104,24 @@ def run(ctx, rep):
             buf = io.StringIO()
             with contextlib.redirect_stdout(buf):
                 try:
-                    shell.tool(pf, af, requested, is_admin, tf if tfile is not None else None)
+                    if case % 3 == 0:
+                        # the command as it is run: oslopolicy-checker --policy … --access … [--rule …] [--is_admin] [--target …]
+                        argv = ['oslopolicy-checker', '--policy', pf, '--access', af]
+                        if requested:
+                            argv += ['--rule', requested]
+                        if is_admin:
+                            argv += ['--is_admin']
+                        if tfile is not None:
+                            argv += ['--target', tf]
+                        saved_argv = sys.argv
+                        sys.argv = argv
+                        try:
+                            shell.main()
+                        finally:
+                            sys.argv = saved_argv
+                        rep.stat('via_cli_entry')
+                    else:
+                        shell.tool(pf, af, requested, is_admin, tf if tfile is not None else None)
                     crashed = None
                 except Exception as e:    # noqa
                     crashed = type(e).__name__
